@@ -449,9 +449,28 @@ func c07r5(c *core.Ctx) {
 	a := GetAnchors(c)
 	m := c.M
 	n := 0
+	// a release helper that is only called from other release functions of the lock is checked through them:
+	// its call site is a write of the lock word in the caller and must be preceded by the caller's test
+	calledByRelease := map[*core.Func]bool{}
+	for _, cs := range m.CallSites() {
+		if cs.Callee != nil && cs.Caller != cs.Callee && cs.Caller.Recv == "lock" && a.Release[cs.Caller] && cs.Callee.Recv == "lock" && a.Release[cs.Callee] {
+			calledByRelease[cs.Callee] = true
+		}
+	}
 	for _, f := range m.Funcs {
 		if f.Recv != "lock" || !a.Release[f] {
 			continue
+		}
+		if calledByRelease[f] {
+			external := false
+			for _, cs := range m.CallSites() {
+				if cs.Callee == f && !(cs.Caller.Recv == "lock" && a.Release[cs.Caller]) {
+					external = true
+				}
+			}
+			if !external {
+				continue
+			}
 		}
 		n++
 		spec := core.GuardSpec{
@@ -577,7 +596,7 @@ func c07r4(c *core.Ctx) {
 					if !ok {
 						continue
 					}
-					if id, ok := kv.Key.(*ast.Ident); ok && f.Recv+"."+id.Name == cl.tokenKey {
+					if litFieldKey(m, kv) == cl.tokenKey {
 						if call, ok := ast.Unparen(kv.Value).(*ast.CallExpr); ok {
 							if k, cal, _ := m.Callee(call); k == core.CallStatic && a.Acquire[cal] {
 								good++
@@ -615,78 +634,147 @@ func c07r4(c *core.Ctx) {
 // closeIdempotent checks the shape of a Close method (see c07r4).
 func closeIdempotent(c *core.Ctx, a *Anchors, f *core.Func) (bool, string) {
 	m := c.M
-	if len(f.Body.List) == 0 {
-		return false, "empty body"
-	}
-	ifs, ok := f.Body.List[0].(*ast.IfStmt)
-	if !ok || ifs.Else != nil || len(ifs.Body.List) != 1 {
-		return false, "does not start with an early-return guard"
-	}
-	if _, ok := ifs.Body.List[0].(*ast.ReturnStmt); !ok {
-		return false, "guard does not return"
-	}
-	// the closed-marker: a comparison of a field with a constant, or a bool field (possibly negated)
-	cond := ast.Unparen(ifs.Cond)
-	var markerExpr ast.Expr
-	var holds func(v constant.Value) bool
-	switch x := cond.(type) {
-	case *ast.BinaryExpr:
-		rv, ok := m.Info.Types[x.Y]
-		if !ok || rv.Value == nil {
-			return false, "closed-marker does not compare with a constant"
+	// Idempotence, stated on paths instead of statement shapes:
+	//  (1) the function has exactly one release call, not inside a loop;
+	//  (2) some test of the query's own state (the closed-marker) with a known outcome dominates that call;
+	//  (3) on every path through the call a constant is stored into the marker under which the test of (2) has the
+	//      opposite outcome, so a second Close cannot reach the release again.
+	var rel []*ast.CallExpr
+	core.InspectNoLits(f.Body, func(n ast.Node) bool {
+		if call, ok := n.(*ast.CallExpr); ok {
+			if k, cal, _ := m.Callee(call); k == core.CallStatic && a.Release[cal] {
+				rel = append(rel, call)
+			}
 		}
-		markerExpr = x.X
-		holds = func(v constant.Value) bool { return constant.Compare(v, x.Op, rv.Value) }
-	case *ast.UnaryExpr:
-		markerExpr = x.X
-		holds = func(v constant.Value) bool { return v.Kind() == constant.Bool && !constant.BoolVal(v) }
-	default:
-		markerExpr = cond
-		holds = func(v constant.Value) bool { return v.Kind() == constant.Bool && constant.BoolVal(v) }
+		return true
+	})
+	if len(rel) != 1 {
+		return false, fmt.Sprintf("%d release calls, want exactly 1", len(rel))
 	}
-	// the marker must be the query's own state: a field path of the receiver without pointer hops
-	mp := m.AccessPath(f, markerExpr)
-	if mp.Kind != core.RootParam || mp.Index != -1 || len(mp.Fields()) == 0 {
-		return false, "closed-marker is not a field of the query itself"
+	R := rel[0]
+	if enclosingLoopOf(f, R) != nil {
+		return false, "the release call is inside a loop (cannot establish exactly-once release)"
 	}
-	for _, k := range mp.Fields() {
-		if o := ownerOf(k); o != f.Recv && o != "cursor" {
-			return false, "closed-marker " + m.ExprString(markerExpr) + " depends on state outside the query object (" + k + "); it cannot tell this query's Close from another's"
+	type cand struct {
+		marker ast.Expr
+		text   string
+		truth  bool
+		// closes reports whether storing v into the marker makes the test fail next time
+		closes func(v constant.Value) bool
+	}
+	var cands []cand
+	seenCand := map[string]bool{}
+	addAtom := func(at core.Atom) {
+		e := ast.Unparen(at.Expr)
+		var cd cand
+		switch x := e.(type) {
+		case *ast.BinaryExpr:
+			rv, ok := m.Info.Types[x.Y]
+			lv, lok := m.Info.Types[x.X]
+			switch {
+			case ok && rv.Value != nil:
+				op, k := x.Op, rv.Value
+				cd = cand{marker: x.X, closes: func(v constant.Value) bool { return constant.Compare(v, op, k) != at.Truth }}
+			case lok && lv.Value != nil:
+				op, k := x.Op, lv.Value
+				cd = cand{marker: x.Y, closes: func(v constant.Value) bool { return constant.Compare(k, op, v) != at.Truth }}
+			default:
+				return
+			}
+		case *ast.Ident, *ast.SelectorExpr:
+			if t := m.Info.TypeOf(e); t == nil || !isBoolType(t) {
+				return
+			}
+			cd = cand{marker: e, closes: func(v constant.Value) bool { return v.Kind() == constant.Bool && constant.BoolVal(v) != at.Truth }}
+		default:
+			return
 		}
+		// the marker must be the query's own state: a field path of the receiver without pointer hops
+		mp := m.AccessPath(f, cd.marker)
+		if mp.Kind != core.RootParam || mp.Index != -1 || len(mp.Fields()) == 0 {
+			return
+		}
+		for _, k := range mp.Fields() {
+			if o := ownerOf(k); o != f.Recv && o != "cursor" {
+				return
+			}
+		}
+		cd.text, cd.truth = m.ExprString(e), at.Truth
+		key := fmt.Sprintf("%s=%v", cd.text, cd.truth)
+		if seenCand[key] {
+			return
+		}
+		seenCand[key] = true
+		cands = append(cands, cd)
 	}
-	lhs := m.ExprString(markerExpr)
-	// constant store to the same expression after the guard
-	marked := false
-	releases := 0
-	for _, st := range f.Body.List[1:] {
-		switch x := st.(type) {
-		case *ast.AssignStmt:
-			for i, l := range x.Lhs {
-				if m.ExprString(l) == lhs && i < len(x.Rhs) {
-					if tv, ok := m.Info.Types[x.Rhs[i]]; ok && tv.Value != nil {
-						if holds(tv.Value) {
-							marked = true
-						}
+	core.InspectNoLits(f.Body, func(n ast.Node) bool {
+		var cond ast.Expr
+		switch x := n.(type) {
+		case *ast.IfStmt:
+			cond = x.Cond
+		case *ast.CaseClause:
+			if len(x.List) == 1 && core.TaglessCases[x] {
+				cond = x.List[0]
+			}
+		}
+		if cond != nil {
+			for _, t := range []bool{true, false} {
+				for _, at := range core.Assume(cond, t) {
+					addAtom(at)
+				}
+			}
+		}
+		return true
+	})
+	if len(cands) == 0 {
+		return false, "no test of the query's own state guards the release; a second Close would release again"
+	}
+	why := "no test of the query's own state dominates the release"
+	for _, cd := range cands {
+		cd := cd
+		spec := core.GuardSpec{
+			Only: f,
+			GuardAtom: func(ff *core.Func, at core.Atom) bool {
+				return at.Truth == cd.truth && m.ExprString(ast.Unparen(at.Expr)) == cd.text
+			},
+			Needs: func(ff *core.Func, n ast.Node) []core.Witness {
+				if n == ast.Node(R) {
+					return []core.Witness{{What: "release"}}
+				}
+				return nil
+			},
+			SkipCallee: func(*core.Func) bool { return true },
+		}
+		if len(m.MustPrecede(spec).Unguarded[f]) > 0 {
+			continue
+		}
+		// (3) a closing constant store on every path through R
+		mtext := m.ExprString(ast.Unparen(cd.marker))
+		isClosingStore := func(n ast.Node) bool {
+			as, ok := n.(*ast.AssignStmt)
+			if !ok {
+				return false
+			}
+			for i, l := range as.Lhs {
+				if m.ExprString(ast.Unparen(l)) == mtext && i < len(as.Rhs) {
+					if tv, ok := m.Info.Types[as.Rhs[i]]; ok && tv.Value != nil && cd.closes(tv.Value) {
+						return true
 					}
 				}
 			}
-		case *ast.ExprStmt:
-			if call, ok := x.X.(*ast.CallExpr); ok {
-				if k, cal, _ := m.Callee(call); k == core.CallStatic && a.Release[cal] {
-					releases++
-				}
-			}
-		case *ast.ReturnStmt, *ast.IfStmt, *ast.ForStmt, *ast.RangeStmt, *ast.SwitchStmt:
-			return false, "control flow after the guard (cannot establish exactly-once release)"
+			return false
 		}
+		if followedOnAllPaths(m, f, R, isClosingStore) || precededOnAllPaths(m, f, R, isClosingStore) {
+			return true, ""
+		}
+		why = "the release is guarded by a test of " + mtext + ", but no constant store on every path through the release makes that test fail afterwards; a second Close would release again"
 	}
-	if !marked {
-		return false, "no constant store after the guard makes the closed-marker true; a second Close would release again"
-	}
-	if releases != 1 {
-		return false, fmt.Sprintf("%d release calls after the guard, want exactly 1", releases)
-	}
-	return true, ""
+	return false, why
+}
+
+func isBoolType(t types.Type) bool {
+	b, ok := t.Underlying().(*types.Basic)
+	return ok && b.Info()&types.IsBoolean != 0
 }
 
 // closeEval decides "every path returning false has called the closer" for a chain of methods on one receiver.
